@@ -38,6 +38,9 @@ pub struct Params {
     pub at_ms: Vec<u64>,
     pub racing: bool,
     pub server_settings: bool,
+    /// once the open request is on the wire the client-to-server direction stalls: the peer stops
+    /// reading and the transport accepts no more bytes (no error either) — a black-holed uplink
+    pub stall_uplink: bool,
 }
 
 pub fn make_client(p: Params) -> anytls_rs::Result<Arc<Client>> {
@@ -119,6 +122,7 @@ pub fn make(p: Params) -> ScenarioFn {
                             let at = pp.at_ms[idx];
                             let inj = link.peer.inj.clone();
                             let id = f.id;
+                            let stall_now = pp.stall_uplink;
                             pending.push(tokio::spawn(async move {
                                 if at == u64::MAX {
                                     return;
@@ -139,6 +143,10 @@ pub fn make(p: Params) -> ScenarioFn {
                                     Beh::DeathAlert => inj.push(&enc(ALERT, 0, b"bye")),
                                 }
                             }));
+                            if stall_now {
+                                link.peer.out.set_capacity(1);
+                                break;
+                            }
                         }
                         _ => {}
                     }
@@ -261,7 +269,7 @@ pub fn make(p: Params) -> ScenarioFn {
 }
 
 pub fn params_json(p: &Params) -> serde_json::Value {
-    json!({"beh": p.beh.iter().map(|b| format!("{b:?}")).collect::<Vec<_>>(), "at_ms": p.at_ms.iter().map(|a| if *a == u64::MAX { -1 } else { *a as i64 }).collect::<Vec<_>>(), "racing": p.racing, "server_settings": p.server_settings})
+    json!({"beh": p.beh.iter().map(|b| format!("{b:?}")).collect::<Vec<_>>(), "at_ms": p.at_ms.iter().map(|a| if *a == u64::MAX { -1 } else { *a as i64 }).collect::<Vec<_>>(), "racing": p.racing, "server_settings": p.server_settings, "stall_uplink": p.stall_uplink})
 }
 
 pub fn all_params(tier: Tier) -> Vec<(Params, usize)> {
@@ -292,9 +300,13 @@ pub fn all_params(tier: Tier) -> Vec<(Params, usize)> {
                 }
                 let bound = if t <= 1000 { if thorough { 2 } else { 1 } } else { 0 };
                 let t = if matches!(b, Beh::Dup(..)) && t == 29_999 { 29_990 } else { t };
-                v.push((Params { beh: vec![b.clone()], at_ms: vec![t], racing: false, server_settings: ss }, bound));
+                v.push((Params { beh: vec![b.clone()], at_ms: vec![t], racing: false, server_settings: ss, stall_uplink: false }, bound));
             }
         }
+    }
+    // black-holed uplink once the request is out: the verdict (or the timeout) must still be reported
+    for (b, t) in [(Beh::Nothing, 0u64), (Beh::Ok, 1000), (Beh::Err("no-route to host"), 1000), (Beh::Ok, 29_999), (Beh::Ok, 30_001), (Beh::UnknownId, 0), (Beh::Dup(true, false), 1000)] {
+        v.push((Params { beh: vec![b.clone()], at_ms: vec![t], racing: false, server_settings: true, stall_uplink: true }, if t <= 1000 { 1 } else { 0 }));
     }
     // two racing opens on the same session
     for a in &behs {
@@ -303,7 +315,7 @@ pub fn all_params(tier: Tier) -> Vec<(Params, usize)> {
                 if !thorough && (ta, tb) != (0, 0) && !(matches!(a, Beh::Ok) || matches!(b, Beh::Ok)) {
                     continue;
                 }
-                v.push((Params { beh: vec![a.clone(), b.clone()], at_ms: vec![ta, tb], racing: true, server_settings: true }, if thorough { 2 } else { 1 }));
+                v.push((Params { beh: vec![a.clone(), b.clone()], at_ms: vec![ta, tb], racing: true, server_settings: true, stall_uplink: false }, if thorough { 2 } else { 1 }));
             }
         }
     }
@@ -324,7 +336,7 @@ pub fn run(tier: Tier) -> i32 {
     let cap = Duration::from_secs(if tier.is_thorough() { 1200 } else { 60 });
     run_items(&mut rep, "C10", tier, items(tier), DxOpts { time_cap: cap, det_replays: 1, max_violations: 2, vacuity_check: false });
     crate::props::c10semi::server_half(&mut rep, tier);
-    rep.finish("DX: {10 server behaviours} x {answer at 0, 1 s, 29.999 s, 30 s, 30.001 s, never} x {1 opener, 2 racing openers with every pair of behaviours} with <= B scheduling deviations on the real create_proxy_stream; SEMI: real TcpProxyHandler against accepting / refusing targets for peer versions {none,1,2}; non-trivial = distinct trace with >= 1 deviation / distinct SEMI case")
+    rep.finish("DX: {10 server behaviours} x {answer at 0, 1 s, 29.999 s, 30 s, 30.001 s, never} x {1 opener, 2 racing openers with every pair of behaviours} (+ a black-holed uplink once the request is out) with <= B scheduling deviations on the real create_proxy_stream; SEMI: real TcpProxyHandler against accepting / refusing targets for peer versions {none,1,2}; non-trivial = distinct trace with >= 1 deviation / distinct SEMI case")
 }
 
 pub fn replay(file: &str) -> i32 {
